@@ -1,7 +1,7 @@
 (* TokDead.v — the fields json_tokener_reset leaves alone (pb, is_double, st_pos, ucs_char,
    quote_char) are dead: every state in which one of them is read is entered through a
    transition that writes it first.  Hence a reset parser behaves exactly like a new one (C04). *)
-From JC Require Import Base BaseLemmas Value TokModel TokFrame TokStack TokTotal TokReset TokOff.
+From JC Require Import Base BaseLemmas Value TokModel TokFrame TokStack TokTotal TokReset TokOff TokSim.
 Local Open Scope Z_scope.
 
 Definition live_pb (s : tstate) : bool :=
@@ -17,72 +17,196 @@ Definition live_ucs (s : tstate) : bool :=
 Definition live_quote (s : tstate) : bool :=
   match s with S_string | S_object_field | S_string_escape | S_escape_unicode | S_need_escape | S_need_u => true | _ => false end.
 
-(* equal except for fields that are dead in the current state *)
-Definition dsim (t1 t2 : tok) : Prop :=
-  stack t1 = stack t2 /\ max_depth t1 = max_depth t2 /\ high_surrogate t1 = high_surrogate t2 /\
-  strict t1 = strict t2 /\ allow_trailing t1 = allow_trailing t2 /\ validate_utf8 t1 = validate_utf8 t2 /\
-  char_offset t1 = char_offset t2 /\ err t1 = err t2 /\
-  (pb t1 = pb t2 \/ live_pb (st t1) = false) /\
-  (is_double t1 = is_double t2 \/ live_dbl (st t1) = false) /\
-  (st_pos t1 = st_pos t2 \/ live_stpos (st t1) = false) /\
-  (ucs_char t1 = ucs_char t2 \/ live_ucs (st t1) = false) /\
-  (quote_char t1 = quote_char t2 \/ live_quote (st t1) = false).
+(* a tokener with its five resettable-but-not-reset fields replaced *)
+Definition dv (t : tok) (p : list byte) (d : bool) (s u q : Z) : tok :=
+  set_quote (set_ucs (set_st_pos (set_is_double (set_pb t p) d) s) u) q.
 
-Definition rdsim (r1 r2 : sres) : Prop :=
+(* the replaced fields agree with t wherever they are live *)
+Definition dead_ok (t : tok) (p : list byte) (d : bool) (s u q : Z) : Prop :=
+  (p = pb t \/ live_pb (st t) = false) /\ (d = is_double t \/ live_dbl (st t) = false) /\
+  (s = st_pos t \/ live_stpos (st t) = false) /\ (u = ucs_char t \/ live_ucs (st t) = false) /\
+  (q = quote_char t \/ live_quote (st t) = false).
+
+Section Rw.
+Variables (p : list byte) (d : bool) (s u q : Z).
+Lemma v_stack t : stack (dv t p d s u q) = stack t. Proof. reflexivity. Qed.
+Lemma v_maxd t : max_depth (dv t p d s u q) = max_depth t. Proof. reflexivity. Qed.
+Lemma v_pb t : pb (dv t p d s u q) = p. Proof. reflexivity. Qed.
+Lemma v_dbl t : is_double (dv t p d s u q) = d. Proof. reflexivity. Qed.
+Lemma v_stpos t : st_pos (dv t p d s u q) = s. Proof. reflexivity. Qed.
+Lemma v_ucs t : ucs_char (dv t p d s u q) = u. Proof. reflexivity. Qed.
+Lemma v_high t : high_surrogate (dv t p d s u q) = high_surrogate t. Proof. reflexivity. Qed.
+Lemma v_quote t : quote_char (dv t p d s u q) = q. Proof. reflexivity. Qed.
+Lemma v_strict t : strict (dv t p d s u q) = strict t. Proof. reflexivity. Qed.
+Lemma v_trail t : allow_trailing (dv t p d s u q) = allow_trailing t. Proof. reflexivity. Qed.
+Lemma v_val t : validate_utf8 (dv t p d s u q) = validate_utf8 t. Proof. reflexivity. Qed.
+Lemma v_err t : err (dv t p d s u q) = err t. Proof. reflexivity. Qed.
+Lemma v_off t : char_offset (dv t p d s u q) = char_offset t. Proof. reflexivity. Qed.
+Lemma v_top t : top (dv t p d s u q) = top t. Proof. reflexivity. Qed.
+Lemma v_st t : st (dv t p d s u q) = st t. Proof. reflexivity. Qed.
+Lemma v_sv t : sv (dv t p d s u q) = sv t. Proof. reflexivity. Qed.
+Lemma v_depth t : depth (dv t p d s u q) = depth t. Proof. reflexivity. Qed.
+Lemma v_set_top t x : set_top (dv t p d s u q) x = dv (set_top t x) p d s u q. Proof. reflexivity. Qed.
+Lemma v_set_stack t x : set_stack (dv t p d s u q) x = dv (set_stack t x) p d s u q. Proof. reflexivity. Qed.
+Lemma v_set_high t x : set_high (dv t p d s u q) x = dv (set_high t x) p d s u q. Proof. reflexivity. Qed.
+Lemma v_set_err t x : set_err (dv t p d s u q) x = dv (set_err t x) p d s u q. Proof. reflexivity. Qed.
+Lemma v_set_state t x : set_state (dv t p d s u q) x = dv (set_state t x) p d s u q. Proof. reflexivity. Qed.
+Lemma v_value_done t x : value_done (dv t p d s u q) x = dv (value_done t x) p d s u q. Proof. reflexivity. Qed.
+Lemma v_set_pb t x : set_pb (dv t p d s u q) x = dv (set_pb t x) x d s u q. Proof. reflexivity. Qed.
+Lemma v_append t x : append (dv t p d s u q) x = dv (append t x) (p ++ x) d s u q. Proof. reflexivity. Qed.
+Lemma v_set_dbl t x : set_is_double (dv t p d s u q) x = dv (set_is_double t x) p x s u q. Proof. reflexivity. Qed.
+Lemma v_set_stpos t x : set_st_pos (dv t p d s u q) x = dv (set_st_pos t x) p d x u q. Proof. reflexivity. Qed.
+Lemma v_set_ucs t x : set_ucs (dv t p d s u q) x = dv (set_ucs t x) p d s x q. Proof. reflexivity. Qed.
+Lemma v_set_quote t x : set_quote (dv t p d s u q) x = dv (set_quote t x) p d s u x. Proof. reflexivity. Qed.
+End Rw.
+Global Hint Rewrite v_stack v_maxd v_pb v_dbl v_stpos v_ucs v_high v_quote v_strict v_trail v_val v_err v_off v_top v_st v_sv
+  v_depth v_set_top v_set_stack v_set_high v_set_err v_set_state v_value_done v_set_pb v_append v_set_dbl v_set_stpos
+  v_set_ucs v_set_quote : tokdv.
+
+(* results related: same constructor, same locals, toks equal up to dead fields *)
+Definition dres (r1 r2 : sres) : Prop :=
   match r1, r2 with
-  | Consumed a x, Consumed b y | Redo a x, Redo b y | Out a x, Out b y => dsim a b /\ x = y
+  | Consumed a x, Consumed b y | Redo a x, Redo b y | Out a x, Out b y =>
+      x = y /\ exists p d s u q, b = dv a p d s u q /\ dead_ok a p d s u q
   | _, _ => False
   end.
 
-Lemma classify_ext sb t1 t2 :
-  pb t1 = pb t2 -> is_double t1 = is_double t2 -> strict t1 = strict t2 ->
-  classify_number sb t1 = classify_number sb t2.
-Proof. intros A B C. unfold classify_number. rewrite A, B, C. reflexivity. Qed.
+Lemma dres_intro (C : tok -> locals -> sres) a l p d s u q :
+  (C = Consumed \/ C = Redo \/ C = Out) -> dead_ok a p d s u q -> dres (C a l) (C (dv a p d s u q) l).
+Proof. intros HC H. destruct HC as [HC|[HC|HC]]; subst C; cbn; (split; [reflexivity|]); exists p, d, s, u, q; auto. Qed.
 
-Ltac prj := cbn [stack max_depth pb is_double st_pos ucs_char high_surrogate quote_char strict allow_trailing
-                 validate_utf8 char_offset err s_state s_saved s_cur s_name fst snd].
+Lemma dv_dbl_only T d : dv T (pb T) d (st_pos T) (ucs_char T) (quote_char T) = set_is_double T d.
+Proof. destruct T; reflexivity. Qed.
 
-Ltac live_split :=
-  cbn [live_pb live_dbl live_stpos live_ucs live_quote] in *;
-  repeat match goal with
-         | H : _ \/ true = false |- _ => destruct H as [H|H]; [|discriminate H]
-         | H : _ \/ false = false |- _ => clear H
-         end; subst.
+Lemma resolve_dbl T d : resolve_pair (set_is_double T d) = (set_is_double (fst (resolve_pair T)) d, snd (resolve_pair T)).
+Proof. unfold resolve_pair. cbn [high_surrogate ucs_char set_is_double].
+  repeat match goal with |- context [if ?b then _ else _] => destruct b end; reflexivity. Qed.
+Lemma emit_dbl T d u l : emit_unicode (set_is_double T d) u l = sres_map (fun x => set_is_double x d) (emit_unicode T u l).
+Proof. unfold emit_unicode. repeat match goal with |- context [if ?b then _ else _] => destruct b end; reflexivity. Qed.
+Lemma finish_unicode_dbl T d l : finish_unicode (set_is_double T d) l = sres_map (fun x => set_is_double x d) (finish_unicode T l).
+Proof.
+  unfold finish_unicode. change (set_st_pos (set_is_double T d) 0) with (set_is_double (set_st_pos T 0) d).
+  rewrite resolve_dbl. cbn [fst snd]. apply emit_dbl.
+Qed.
 
-Ltac dsim_done :=
-  unfold dsim, st, top; prj; cbn [live_pb live_dbl live_stpos live_ucs live_quote];
+Lemma st_set_stack_cons t x r : st (set_stack t (x :: r)) = s_state x. Proof. reflexivity. Qed.
+Lemma stpos_append t x : st_pos (append t x) = st_pos t. Proof. reflexivity. Qed.
+Global Hint Rewrite st_set_stack_cons : tokst.
+
+Lemma stpos_set_stpos t x : st_pos (set_st_pos t x) = x. Proof. reflexivity. Qed.
+Lemma stpos_set_ucs t x : st_pos (set_ucs t x) = st_pos t. Proof. reflexivity. Qed.
+Lemma emit_not_number T u l top0 below :
+  stack T = top0 :: below -> str_like (s_saved top0) = true ->
+  live_dbl (st (sres_tok (emit_unicode T u l))) = false.
+Proof.
+  intros E Hs. unfold emit_unicode.
+  assert (Hsv : sv T = s_saved top0) by (unfold sv, top; rewrite E; reflexivity).
+  repeat match goal with |- context [if ?b then _ else _] => destruct b end; cbn [sres_tok]; autorewrite with tokst;
+    rewrite ?Hsv; try reflexivity; destruct (s_saved top0); try discriminate Hs; reflexivity.
+Qed.
+Lemma finish_unicode_not_number T l top0 below :
+  stack T = top0 :: below -> str_like (s_saved top0) = true ->
+  live_dbl (st (sres_tok (finish_unicode T l))) = false.
+Proof.
+  intros E Hs. unfold finish_unicode. eapply emit_not_number; [|exact Hs].
+  rewrite stack_resolve. autorewrite with tokstk. exact E.
+Qed.
+Lemma dres_dbl r d : live_dbl (st (sres_tok r)) = false -> dres r (sres_map (fun x => set_is_double x d) r).
+Proof.
+  intros H. destruct r as [a x|a x|a x]; cbn [sres_map sres_tok dres] in *; (split; [reflexivity|]);
+    exists (pb a), d, (st_pos a), (ucs_char a), (quote_char a); (split; [symmetry; apply dv_dbl_only|]);
+    unfold dead_ok; repeat split; try (left; reflexivity); right; exact H.
+Qed.
+
+Ltac dead_done Hst Hsv Ht :=
+  unfold dead_ok; autorewrite with tokst; rewrite ?Hst, ?Hsv;
+  cbn [s_state live_pb live_dbl live_stpos live_ucs live_quote];
   repeat match goal with
          | |- _ /\ _ => split
          | |- _ \/ _ => first [left; reflexivity | right; reflexivity]
-         | |- _ = _ => reflexivity
          end.
 
 Section S.
 Variable sb : list byte -> Z.
 
-Lemma step1_dsim t1 t2 l : wfs (stack t1) = true -> dsim t1 t2 -> rdsim (step1 sb t1 l) (step1 sb t2 l).
+Lemma classify_dv t p d s u q : classify_number sb (dv t p d s u q) = classify_number sb (set_is_double (set_pb t p) d).
+Proof. reflexivity. Qed.
+
+Lemma step1_dv t p d s u q l :
+  wfs (stack t) = true -> dead_ok t p d s u q -> dres (step1 sb t l) (step1 sb (dv t p d s u q) l).
 Proof.
-  intros Hw H. unfold dsim in H.
-  destruct t1 as [stk md p dbl sp uc hs qc sf af vf off e], t2 as [stk2 md2 p2 dbl2 sp2 uc2 hs2 qc2 sf2 af2 vf2 off2 e2].
-  cbn [stack max_depth pb is_double st_pos ucs_char high_surrogate quote_char strict allow_trailing validate_utf8 char_offset err] in H.
-  destruct H as (-> & -> & -> & -> & -> & -> & -> & -> & Hp & Hd & Hs & Hu & Hq).
-  destruct stk2 as [|[s v cur nm] below]; [discriminate|].
-  cbn [wfs stack s_state s_saved] in Hw. apply andb_true_iff in Hw. destruct Hw as [Ht Hb].
-  unfold st, top in Hp, Hd, Hs, Hu, Hq. cbn [stack s_state] in Hp, Hd, Hs, Hu, Hq.
-  destruct s; live_split.
-  all: unfold step1, st, sv, top; prj; cbv iota.
-  all: unfold fail, finish_unicode, emit_unicode, resolve_pair, value_done, set_state, set_saved, set_top, append, lit_match,
-         num_char_ok, set_pb, set_st_pos, set_quote, set_is_double, set_ucs, set_high, set_stack, set_err, sv, st, top, depth; prj.
-  all: try (timeout 20 (
-         repeat match goal with
-                | |- context [classify_number sb ?a] =>
-                    match goal with |- context [classify_number sb ?b] =>
-                      lazymatch a with b => fail | _ => rewrite (classify_ext sb a b) by reflexivity end end
-                | |- context [if ?b then _ else _] => destruct b
-                | |- context [match classify_number sb ?x with _ => _ end] => destruct (classify_number sb x)
-                | |- context [match lnum ?x with _ => _ end] => destruct (lnum x)
-                | |- context [match below with _ => _ end] => destruct below as [|[ps pv pc pn] below2]
-                end; prj; cbn [rdsim]; (split; [dsim_done|reflexivity]))).
-  all: match goal with |- ?g => idtac "REMAIN" end.
-Admitted.
+  intros Hw (Hp & Hd & Hs & Hu & Hq).
+  destruct (stack t) as [|[s0 v cur nm] below] eqn:E; [discriminate|].
+  assert (Htop : top t = mksrec s0 v cur nm) by (unfold top; rewrite E; reflexivity).
+  assert (Hst : st t = s0) by (unfold st; rewrite Htop; reflexivity).
+  assert (Hsv : sv t = v) by (unfold sv; rewrite Htop; reflexivity).
+  cbn [wfs s_state s_saved] in Hw. apply andb_true_iff in Hw. destruct Hw as [Ht Hb].
+  rewrite Hst in Hp, Hd, Hs, Hu, Hq.
+  unfold step1, fail. autorewrite with tokdv. rewrite Hst.
+  destruct s0; cbv iota; cbn [live_pb live_dbl live_stpos live_ucs live_quote] in Hp, Hd, Hs, Hu, Hq.
+  all: repeat match goal with
+              | H : _ \/ true = false |- _ => destruct H as [H|H]; [|discriminate H]
+              | H : _ \/ false = false |- _ => clear H
+              end; try subst p; try subst d; try subst s; try subst u; try subst q.
+  15: { (* S_number: pb and is_double are live *)
+    repeat match goal with
+           | |- context [num_char_ok (dv ?T ?p' ?d' ?s' ?u' ?q') ?n ?c] =>
+               change (num_char_ok (dv T p' d' s' u' q') n c) with (num_char_ok T n c)
+           end.
+    match goal with |- context [if ?b then _ else _] => destruct b end.
+    - repeat match goal with |- context [if ?b then _ else _] => destruct b end; autorewrite with tokdv;
+        match goal with |- dres (?C ?a ?x) (?C (dv ?a ?p' ?d' ?s' ?u' ?q') ?x) =>
+          apply (dres_intro C a x p' d' s' u' q'); [auto|] end;
+        unfold dead_ok; autorewrite with tokst; rewrite ?Hst; cbn [live_pb live_dbl live_stpos live_ucs live_quote];
+        repeat split; first [left; reflexivity | right; reflexivity].
+    - repeat match goal with
+             | |- context [classify_number sb (dv ?T ?p' ?d' ?s' ?u' ?q')] =>
+                 change (classify_number sb (dv T p' d' s' u' q')) with (classify_number sb T)
+             | |- context [if ?b then _ else _] => destruct b
+             | |- context [match classify_number sb ?x with _ => _ end] => destruct (classify_number sb x)
+             end; autorewrite with tokdv;
+        match goal with |- dres (?C ?a ?x) (?C (dv ?a ?p' ?d' ?s' ?u' ?q') ?x) =>
+          apply (dres_intro C a x p' d' s' u' q'); [auto|] end;
+        unfold dead_ok; autorewrite with tokst; rewrite ?Hst; cbn [live_pb live_dbl live_stpos live_ucs live_quote];
+        repeat split; first [left; reflexivity | right; reflexivity].
+  }
+  11: { (* S_escape_unicode: everything but is_double is live *)
+    unfold wf_top in Ht; cbn [ws_like esc_like andb] in Ht.
+    destruct (negb (is_hex (lc l))).
+    - autorewrite with tokdv.
+      match goal with |- dres (?C ?a ?x) (?C (dv ?a ?p' ?d' ?s' ?u' ?q') ?x) =>
+        apply (dres_intro C a x p' d' s' u' q'); [auto|] end.
+      unfold dead_ok; autorewrite with tokst; rewrite ?Hst; cbn [live_pb live_dbl live_stpos live_ucs live_quote];
+        repeat split; first [left; reflexivity | right; reflexivity].
+    - rewrite ?stpos_set_stpos, ?stpos_set_ucs.
+      match goal with |- context [if ?b then _ else _] => destruct b end.
+      + match goal with |- dres (finish_unicode ?T ?x) (finish_unicode (dv ?T ?p' ?d' ?s' ?u' ?q') ?x) =>
+          change (dv T p' d' s' u' q') with (dv T (pb T) d' (st_pos T) (ucs_char T) (quote_char T)) end.
+        rewrite dv_dbl_only, finish_unicode_dbl. apply dres_dbl.
+        eapply finish_unicode_not_number; [autorewrite with tokstk; exact E|exact Ht].
+      + match goal with |- dres (?C ?a ?x) (?C (dv ?a ?p' ?d' ?s' ?u' ?q') ?x) =>
+          apply (dres_intro C a x p' d' s' u' q'); [auto|] end.
+        unfold dead_ok; autorewrite with tokst; rewrite ?Hst; cbn [live_pb live_dbl live_stpos live_ucs live_quote];
+          repeat split; first [left; reflexivity | right; reflexivity].
+  }
+  all: rewrite ?stpos_append.
+  all: repeat match goal with |- context [lit_match (dv ?T ?p' ?d' ?s' ?u' ?q') ?li ?n] =>
+         change (lit_match (dv T p' d' s' u' q') li n) with (lit_match T li n) end.
+  all: try (timeout 30 (
+    repeat match goal with
+           | |- context [if ?b then _ else _] => destruct b
+           | |- context [match stack ?x with _ => _ end] => rewrite E
+           | |- context [match ?y with [] => _ | _ :: _ => _ end] => destruct y as [|[ps pv pc pn] below2]
+           end;
+    autorewrite with tokdv;
+    match goal with |- dres (?C ?a ?x) (?C (dv ?a ?p' ?d' ?s' ?u' ?q') ?x) =>
+      apply (dres_intro C a x p' d' s' u' q'); [auto|dead_done Hst Hsv Ht] end)).
+  all: try (unfold wf_top in Ht; cbn [ws_like esc_like andb] in Ht; rewrite ?andb_true_r in Ht;
+            destruct v; try discriminate Ht; cbn [live_pb live_dbl live_stpos live_ucs live_quote];
+            first [left; reflexivity | right; reflexivity]).
+  all: try (match goal with H : forallb _ (?x :: _) = true |- _ =>
+              cbn [forallb] in H; apply andb_true_iff in H; destruct H as [Hpar _];
+              destruct (s_state x); try discriminate Hpar;
+              cbn [live_pb live_dbl live_stpos live_ucs live_quote]; right; reflexivity end).
+Qed.
 End S.
